@@ -19,6 +19,7 @@ import (
 )
 
 type channel struct {
+	mpdMu                 sync.Mutex // serialises init-segment processing and segment-data processing (mpd, startTime, track tables)
 	mu                    sync.RWMutex
 	name                  string
 	dir                   string
@@ -123,6 +124,8 @@ func (ch *channel) run(ctx context.Context) {
 // set from the value of mvhd.CreationTime if later or equal to 1970-01-01
 // and the start of a year.
 func (ch *channel) addInitDataAndUpdateTimescale(stream stream, init *mp4.InitSegment) error {
+	ch.mpdMu.Lock()
+	defer ch.mpdMu.Unlock()
 	if init == nil {
 		return fmt.Errorf("no moov box found in init segment")
 	}
@@ -289,6 +292,8 @@ func (ch *channel) addChunkData(rsd recSegData) {
 }
 
 func (ch *channel) receivedSegData(rsd recSegData) {
+	ch.mpdMu.Lock()
+	defer ch.mpdMu.Unlock()
 	log := slog.Default().With("chName", ch.name, "trName", rsd.name, "seqNr", rsd.seqNr)
 	if _, ok := ch.trDatas[rsd.name]; !ok {
 		log.Error("received segData for unknown track")
